@@ -34,6 +34,7 @@ type C05Case struct {
 	UnionWin bool              `json:"union_win,omitempty"` // also run (ordered window) UNION ALL (window of the reversed order): each arm is its own sequence
 	Big      *BigKey           `json:"big,omitempty"`       // one key column handed over as native integers far beyond 2^53 (order-isomorphic to the small values in doc)
 	Scale    *Scale            `json:"scale,omitempty"`     // large table: t is expanded from the rows of the document by this recipe (first sort key spread over many values) before anything is computed
+	NullAt   []int             `json:"null_at,omitempty"`   // with Scale, a single sort key and no WHERE: the expanded rows at these positions hold NULL in the key column
 	Stretch  bool              `json:"stretch,omitempty"`   // with Scale: LIMIT and OFFSET are stretched by the same factor as the table
 	GoTypes  map[string]string `json:"go_types,omitempty"`  // numeric columns handed over as native Go values of that type // SELECT DISTINCT: the window applies to the de-duplicated sequence
 }
@@ -234,6 +235,24 @@ func genC05(t *rapid.T) any {
 			}
 			c.Scale = sc
 			c.Stretch = rapid.Bool().Draw(t, "scale.stretch")
+			if len(c.Keys) == 1 && c.Where == nil && rapid.Bool().Draw(t, "scale.nullhead") {
+				// NULL keys among the very first rows of a large table (they belong behind every other row)
+				c.NullAt = rapid.SliceOfN(rapid.IntRange(0, 7), 1, 3).Draw(t, "scale.nullat")
+				if rapid.Bool().Draw(t, "scale.nullhead.huge") {
+					sc.Rows = rapid.IntRange(1024, 2600).Draw(t, "scale.nullhead.rows")
+				}
+				if !c.HasLimit || c.Limit == 0 || rapid.Bool().Draw(t, "scale.nullhead.window") {
+					// a short window at the front of the ordered sequence
+					c.HasLimit, c.Stretch = true, false
+					c.Limit = rapid.IntRange(1, 9).Draw(t, "scale.nullhead.limit")
+					if c.Spelling == "" {
+						c.Spelling = "limit"
+					}
+					if c.Offset > 40 {
+						c.Offset = rapid.IntRange(0, 6).Draw(t, "scale.nullhead.offset")
+					}
+				}
+			}
 		}
 	}
 	return c
@@ -324,6 +343,24 @@ func checkC05(c *C05Case) Result {
 	if c.Scale != nil {
 		cc := *c
 		cc.Doc, cc.Scale = c.Scale.ExpandDoc(c.Doc, "t"), nil
+		if len(c.NullAt) > 0 && len(c.Keys) == 1 && c.Where == nil {
+			src := c.Keys[0].Col
+			for i, a := range c.Alias {
+				if a == src && i < len(c.Cols) {
+					src = c.Cols[i]
+					break
+				}
+			}
+			big, _ := cc.Doc["t"].([]any)
+			for _, at := range c.NullAt {
+				if at < len(big) {
+					if rm, ok := big[at].(map[string]any); ok {
+						rm[src] = nil
+					}
+				}
+			}
+			cc.NullAt = nil
+		}
 		if base, _ := c.Doc["t"].([]any); c.Stretch && len(base) > 0 {
 			f := c.Scale.Rows / (len(base) + 3)
 			if cc.Limit <= len(base)+3 {
